@@ -40,10 +40,12 @@ class OrderedTasks(set):
     """stand-in for the root's task *set*: iteration order = insertion order rotated by `rot`
     (the real set iterates in address order; the property quantifies over that order)"""
 
-    def __init__(self):
+    def __init__(self, keyof=None):
         set.__init__(self)
         self.order = []
         self.rot = 0
+        self.keyof = keyof
+        self.recorded = None
 
     def add(self, t):
         if t not in self:
@@ -61,7 +63,10 @@ class OrderedTasks(set):
     def copy(self):
         o = list(self.order)
         k = self.rot % len(o) if o else 0
-        return o[k:] + o[:k]
+        o = o[k:] + o[:k]
+        if self.keyof is not None and self.recorded is None:
+            self.recorded = [self.keyof(t) for t in o]      # the schedule of this tick, handed to the model
+        return o
 
     def __iter__(self):
         return iter(self.copy())
@@ -116,8 +121,24 @@ def run_case(case):
             return None if hd['v'] is None else hd['v'] + 100 * tok
         return fn
 
+    registry = {}      # id(handler generator) -> (generator, token, handler index)
+
+    def keyof(task):
+        ev, g, parent = task
+        if parent is None:
+            r = registry.get(id(g))
+            return [r[1], r[2], 0] if r else [0, 0, 3]
+        r = registry.get(id(parent))
+        kind = 2 if getattr(getattr(g, 'gi_code', None), 'co_name', '') == '<genexpr>' else 1
+        return [r[1], r[2], kind] if r else [0, 0, 3]
+
     def mk_gen(nm, i, hd):
         def fn(self, tok):
+            g = body(self, tok)
+            registry[id(g)] = (g, tok, i)
+            return g
+
+        def body(self, tok):
             for k, st in enumerate(hd['st']):
                 log.append([1, tok, i, k])
                 op = st[0]
@@ -170,7 +191,7 @@ def run_case(case):
         app.addHandler(handler(*['e%d_success' % nm for nm in names])(on_succ))
         app.addHandler(handler(*['e%d' % nm for nm in names], priority=1000)(on_any))
 
-    tasks = OrderedTasks()
+    tasks = OrderedTasks(keyof)
     if hasattr(app, '_tasks'):
         app._tasks = tasks
     app._running = bool(case['gen'])
@@ -181,6 +202,7 @@ def run_case(case):
         return {k: len(v) for k, v in hd.items() if v}
     h0 = snap()
     rootvals = []
+    sched = []
     rot = case.get('rot') or [0]
     for t in range(case['n']):
         for (tt, nm) in case['roots']:
@@ -189,7 +211,9 @@ def run_case(case):
                 rootvals.append((tok, app.fire(ev)))
         log.append([7, t])
         tasks.rot = rot[t % len(rot)]
+        tasks.recorded = None
         app.tick(0)
+        sched.append(tasks.recorded or [])
     h1 = snap()
     kinds = [0, 0, 0, 0]       # e<k>, e<k>_done, generate_events, anything else
     for k in set(h0) | set(h1):
@@ -207,7 +231,7 @@ def run_case(case):
     except Exception:
         ntasks = len(tasks)
     return {'log': log, 'roots': [[tok, enc_value(v), 1 if v.errors else 0] for tok, v in rootvals],
-            'residue': kinds[:3] + [ntasks, len(app)], 'other': kinds[3]}
+            'residue': kinds[:3] + [ntasks, len(app)], 'other': kinds[3], 'sched': sched}
 
 
 # ------------------------------------------------------------------------------------- case generation
@@ -339,6 +363,26 @@ def prog_lit(H):
                 hs.append('HGen %s [%s]' % ('true' if hd.get('c') else 'false', '; '.join(step_lit(s) for s in hd['st'])))
         rows.append('[%s]' % '; '.join(hs))
     return '[%s]' % '; '.join(rows)
+
+
+def flat(o, out):
+    if isinstance(o, (list, tuple)):
+        out.append(1)
+        for x in o:
+            flat(x, out)
+        out.append(0)
+    else:
+        out.append(int(o) + 3)
+    return out
+
+
+def obs_hash(o):
+    l = flat(o, [])
+    h1, h2 = 7, 7
+    for x in l:
+        h1 = (h1 * 31 + x) & 1099511627775
+        h2 = (h2 * 37 + x) & 2147483647
+    return [h1, h2, len(l)]
 
 
 # ------------------------------------------------------------------------------------- oracle helpers
@@ -561,7 +605,7 @@ class C06(Prop):
     id = 'C06'
     props_file = 'Props/C06.v'
     imports = ['Model.KTasks', 'Model.KTasksObs']
-    quick_n = 500
+    quick_n = 320
     thorough_n = 6000
     rule = ('acyclic programs over <= 5 event names (call depth <= 4): plain handlers (return/raise) and generator handlers with '
             '0-4 steps out of yield / call(e[,timeout]) / wait(obj) / wait(name[,timeout]) with or without own fire / fire / raise, '
@@ -575,6 +619,7 @@ class C06(Prop):
 
     def __init__(self):
         self.stats = {}
+        self._sched = {}
 
     def generate(self, rng, n, tier):
         cases = [gen_case(rng, tier) for _ in range(n)]
@@ -595,17 +640,36 @@ class C06(Prop):
         return cases
 
     def impl(self, case):
-        return run_case(case)
+        obs = run_case(case)
+        self._sched[common.canon(case)] = obs['sched']
+        return obs
+
+    def sched_of(self, case):
+        """the task-set iteration order of every tick, recorded from the implementation run (schedule input of the model)"""
+        key = common.canon(case)
+        if key not in self._sched:
+            obs = self.safe_impl(case)
+            self._sched[key] = obs.get('sched', []) if isinstance(obs, dict) else []
+        return self._sched[key]
+
+    def model_args(self, case):
+        roots = '[%s]' % '; '.join('(%d%%nat, %d%%nat)' % (t, nm) for t, nm in case['roots'])
+        sch = self.sched_of(case)
+        while sch and not sch[-1]:
+            sch = sch[:-1]
+        scheds = '[%s]' % '; '.join('[%s]' % '; '.join('(%d, %d, %d)%%nat' % tuple(k) for k in ks) for ks in sch)
+        return '%s %s %s %s %d%%nat' % (prog_lit(case['H']), 'true' if case['gen'] else 'false', scheds, roots, case['n'])
 
     def model_term(self, case):
-        roots = '[%s]' % '; '.join('(%d%%nat, %d%%nat)' % (t, nm) for t, nm in case['roots'])
-        rots = '[%s]' % '; '.join('%d%%nat' % r for r in (case.get('rot') or [0]))
-        return 'obs_run %s %s %s %s %d%%nat' % (prog_lit(case['H']), 'true' if case['gen'] else 'false', rots, roots, case['n'])
+        return 'hash_run ' + self.model_args(case)
+
+    def full_obs(self, case, obs):
+        return [obs['log'], obs['roots'], obs['residue'] + [0]]
 
     def obs_for_model(self, case, obs):
         if isinstance(obs, dict) and '__crash__' in obs:
             return [-999]
-        return [obs['log'], obs['roots'], obs['residue'] + [0]]
+        return obs_hash(self.full_obs(case, obs))
 
     def oracle(self, case, obs):
         if isinstance(obs, dict) and '__crash__' in obs:
